@@ -459,9 +459,10 @@ theorem dtick_inv1 {inp : RunInput} {s s' : Sys} {perm : List Name} (h : Inv1 in
 
 theorem wokenReady_self2 {inp : RunInput} {s : Sys} {w : Name} {nd : Node} (pst : RS) (p : Name)
     (hok : NodeOK inp s w nd) (hr : wokenReady p nd = true) (hpc : nd.pc = .self2) :
-    (wokenNode inp pst p nd).waitRun = [] := by
+    (wokenF inp s pst p nd).waitRun = [] := by
   have hm := hok.m1 (by rw [hpc]; rfl)
   have hnc : p ∉ nd.waitRunCalc := by rw [hm.2.2]; simp
+  rw [wokenF_same hnc]
   simp only [wokenReady, hnc, if_false, Bool.and_eq_true, List.isEmpty_iff] at hr
   simp only [wokenNode, hnc, if_false, parentStatus]
   exact hr.1
@@ -470,12 +471,12 @@ theorem wakeOne_inv1 {inp : RunInput} {s : Sys} {pst : RS} {p w : Name} {nd : No
     (hw : s.nodes w = some nd) (hp : stOf s p = pst) (hf : pst.finished = true) (hcr : wakeCrash p nd = false) :
     Inv1 inp (wakeOne inp s pst p w nd) ∧ (∀ x, stOf (wakeOne inp s pst p w nd) x = stOf s x) := by
   have hok := h.node w nd hw
-  have hu := wokenNode_upd inp pst p nd
-  have hst : ∀ x, stOf (setNode s w (wokenNode inp pst p nd)) x = stOf s x := by
+  have hu := wokenF_upd inp s pst p nd
+  have hst : ∀ x, stOf (setNode s w (wokenF inp s pst p nd)) x = stOf s x := by
     intro x; rw [stOf_setNode]; split
     · rename_i e; subst e; simp [stOf, hw, hu.status]
     · rfl
-  have hok' : NodeOK inp s w (wokenNode inp pst p nd) := hok.upd hu (Stable.refl s) hp hf
+  have hok' : NodeOK inp s w (wokenF inp s pst p nd) := hok.upd hu (Stable.refl s) hp hf
   -- `p` is in one of the wait sets, so the node is not at a quiet position: it is not waiting for select
   have hin : p ∈ nd.waitRun ∨ p ∈ nd.waitRunCalc := by
     simp only [wakeCrash, Bool.and_eq_false_iff, decide_eq_false_iff_not, Decidable.not_not] at hcr
@@ -488,13 +489,13 @@ theorem wakeOne_inv1 {inp : RunInput} {s : Sys} {pst : RS} {p w : Name} {nd : No
     · rw [a] at x; cases x
     · rw [b.2.2] at x; cases x
   have hws : nd.waitSelect = false := nodeOK_noWaitSelect hok hnq
-  have h1 : Inv1 inp (setNode s w (wokenNode inp pst p nd)) := by
+  have h1 : Inv1 inp (setNode s w (wokenF inp s pst p nd)) := by
     refine inv1_setNode h hw hu.status hok' ?_ ?_ ?_
     · intro e
       rw [hu.pc] at e
       by_cases hwr : nd.waitRun = []
       · left
-        cases hb : (wokenNode inp pst p nd).waitRun with
+        cases hb : (wokenF inp s pst p nd).waitRun with
         | nil => rfl
         | cons a t => have := hu.wr' a (by simp [hb]); rw [hwr] at this; cases this
       · right
@@ -507,7 +508,7 @@ theorem wakeOne_inv1 {inp : RunInput} {s : Sys} {pst : RS} {p w : Name} {nd : No
   split
   · rename_i hc
     constructor
-    · refine inv1_toReady (w := w) (nd := wokenNode inp pst p nd) h1 hc.2 (by simp [setNode_nodes]) ?_ ?_
+    · refine inv1_toReady (w := w) (nd := wokenF inp s pst p nd) h1 hc.2 (by simp [setNode_nodes]) ?_ ?_
         rfl rfl rfl rfl rfl
       · intro e; rw [hu.pc] at e; exact wokenReady_self2 pst p hok hc.1 e
       · rw [hu.waitSelect]; exact hws
